@@ -1,6 +1,6 @@
 /-
-  Safety calculus: every `createCode` / `createRefresh` a program issues happens under its
-  guard, hence the grant invariant survives the whole run — on every path, not only the
+  Safety calculus: every `createCode` / `createRefresh` / `createDevice` / `createPAR` a program
+  issues happens under its guard, hence the grant invariant survives the whole run — on every path, not only the
   successful one.
 -/
 import Fosite.Proofs.GrantInv
@@ -38,27 +38,27 @@ theorem safeK_sound {α} (rc : RunCfg) (hp : Plain rc) (p : Prog α) (K : RState
     · rw [h']; exact hinv
     · rw [h']; exact exec_GInv _ _ hinv (hg hinv)
 
-/-- programs that never create codes or refresh tokens -/
+/-- programs that never issue a guarded call (create codes, refresh tokens, device authorizations
+    or pushed requests) -/
 def calm {α} : Prog α → Prop
   | .ret _ => True
-  | .call c k => (∀ r, c ≠ .createCode r) ∧ (∀ a r, c ≠ .createRefresh a r) ∧ ∀ res, calm (k res)
+  | .call c k => c.guarded = false ∧ ∀ res, calm (k res)
 
-theorem guard_of_guardless (ss : SState) (c : Call) (h1 : ∀ r, c ≠ .createCode r) (h2 : ∀ a r, c ≠ .createRefresh a r) :
-    Guard ss c := by
-  cases c <;> simp only [Guard] <;> first | trivial | exact absurd rfl (h1 _) | exact absurd rfl (h2 _ _)
+theorem guard_of_guardless (ss : SState) (c : Call) (h : c.guarded = false) : Guard ss c := by
+  cases c <;> first | trivial | cases h
 
 theorem safeK_of_calm {α} (rc) (p : Prog α) (rs) (h : calm p) : safeK rc p (fun _ _ => True) rs := by
   induction p generalizing rs with
   | ret a => trivial
-  | call c k ih => exact ⟨fun _ => guard_of_guardless _ _ h.1 h.2.1, ih _ _ (h.2.2 _)⟩
+  | call c k ih => exact ⟨fun _ => guard_of_guardless _ _ h.1, ih _ _ (h.2 _)⟩
 
 theorem calm_bind {α β} (p : Prog α) (f : α → Prog β) (hp : calm p) (hf : ∀ a, calm (f a)) : calm (p.bind f) := by
   induction p with
   | ret a => exact hf a
-  | call c k ih => exact ⟨hp.1, hp.2.1, fun res => ih res (hp.2.2 res)⟩
+  | call c k ih => exact ⟨hp.1, fun res => ih res (hp.2 res)⟩
 
-theorem calm_call (c : Call) (h1 : ∀ r, c ≠ .createCode r) (h2 : ∀ a r, c ≠ .createRefresh a r) : calm (call c) :=
-  ⟨h1, h2, fun _ => trivial⟩
+theorem calm_call (c : Call) (h : c.guarded = false) : calm (call c) :=
+  ⟨h, fun _ => trivial⟩
 
 /-- handler-level safety: errors may leave at any point -/
 def safeH {α} (rc : RunCfg) (x : HP α) (K : RState → α → Prop) (rs : RState) : Prop :=
@@ -143,6 +143,30 @@ theorem safeH_expectClient (rc) (c : Call) (e) (K) (rs : RState) :
   all_goals first
     | exact Iff.rfl
     | exact ⟨fun h => h.1, fun h => ⟨h, safeH_fail rc _ K _⟩⟩
+
+theorem safeH_expectDev (rc) (c : Call) (other) (K) (rs : RState) (hcalm : ∀ r, calm (other r)) :
+    safeH rc (expectDev c other) K rs ↔
+      (GInv rs.ss → Guard rs.ss c) ∧ ∀ x, (rs.step rc c).2 = .dev x → K (rs.step rc c).1 x := by
+  unfold expectDev safeH HP.mk
+  show safeK rc (Prog.call c _) _ rs ↔ _
+  simp only [safeK]
+  generalize (rs.step rc c).2 = r
+  cases r <;> simp only [reduceCtorEq, false_implies, implies_true, and_true, Res.dev.injEq, forall_eq']
+  all_goals first
+    | exact Iff.rfl
+    | exact ⟨fun h => h.1, fun h => ⟨h, safeH_failWith rc _ K _ (hcalm _)⟩⟩
+
+theorem safeH_expectPar (rc) (c : Call) (other) (K) (rs : RState) (hcalm : ∀ r, calm (other r)) :
+    safeH rc (expectPar c other) K rs ↔
+      (GInv rs.ss → Guard rs.ss c) ∧ ∀ x, (rs.step rc c).2 = .par x → K (rs.step rc c).1 x := by
+  unfold expectPar safeH HP.mk
+  show safeK rc (Prog.call c _) _ rs ↔ _
+  simp only [safeK]
+  generalize (rs.step rc c).2 = r
+  cases r <;> simp only [reduceCtorEq, false_implies, implies_true, and_true, Res.par.injEq, forall_eq']
+  all_goals first
+    | exact Iff.rfl
+    | exact ⟨fun h => h.1, fun h => ⟨h, safeH_failWith rc _ K _ (hcalm _)⟩⟩
 
 theorem safeH_ite {α} (rc) (c : Prop) [Decidable c] (x y : HP α) (K) (rs) :
     safeH rc (if c then x else y) K rs ↔ (c → safeH rc x K rs) ∧ (¬c → safeH rc y K rs) := by
